@@ -166,6 +166,9 @@ func Exec(d *decode.D, p []Op) {
 			d.FieldFormatRange(o.Name, o.Off, o.W, subGroup(o.Body), nil)
 		case "fmt":
 			d.FieldFormat(o.Name, subGroup(o.Body), nil)
+		case "fmtin":
+			// inline: the children of the sub format's root become children of the current compound
+			d.Format(subGroup(o.Body), nil)
 		case "fmtorraw":
 			d.FieldFormatOrRawLen(o.Name, o.W, subGroup(o.Body), nil)
 		case "rootstruct":
